@@ -153,9 +153,9 @@ Qed.
 
 Lemma control_limit_ross : forall arl p, control_limit (A:=RealA) arl p = ross_limit arl p.
 Proof.
-  intros arl p. unfold control_limit, cl_coeffs, ross_limit.
+  intros arl p. unfold control_limit, ross_limit.
   destruct (arl =? 100)%Z; [|destruct (arl =? 400)%Z];
-    unfold coef; cbn [powN add sub mul div ofZ RealA num]; unfold one; cbn [ofZ RealA];
+    unfold lit; cbn [powN add sub mul div ofZ RealA num]; unfold one; cbn [ofZ RealA];
     unfold Q2R; cbn [QArith_base.Qnum QArith_base.Qden]; field.
 Qed.
 
